@@ -280,7 +280,7 @@ def check_value(ctx, batch, rng, tj, T, n, v, malformed=0, reported=None):
         return out_viol
     outs = {}
     for mode in G.MODES:
-        ok1, out = lib.call(obj.to_micheline_value, mode)
+        ok1, out = lib.call(obj.to_micheline_value, mode, lazy_diff=None)
         m2 = dict(meta, mode=mode)
         if not ok1:
             out_viol.append((f'to_micheline_value({mode}) raised: {out}', m2))
@@ -312,7 +312,7 @@ def check_value(ctx, batch, rng, tj, T, n, v, malformed=0, reported=None):
         if okm and not has_opaque(am):
             # accepted mutants are values too: they must round-trip as well (B)
             for mode2 in G.MODES:
-                ok3, out3 = lib.call(bm.to_micheline_value, mode2)
+                ok3, out3 = lib.call(bm.to_micheline_value, mode2, lazy_diff=None)
                 if not ok3:
                     continue
                 ok4, a4, b4 = from_mich(T, out3)
